@@ -119,7 +119,7 @@ func genC18(g *Gen) error {
 	const tp = "lib/util/lifted/promql2influxql/"
 	const en = "engine/"
 	g.Header(tp+"constant.go", tp+"selector.go", tp+"call.go", en+"prom_range_vector_cursor.go", en+"prom_instant_vector_cursor.go",
-		en+"prom_functions.go", en+"executor/agg_func_prom.go")
+		en+"prom_functions.go", en+"prom_function_reducers.go", en+"executor/agg_func_prom.go", tp+"transpiler.go")
 	g.GenNS()
 
 	// look-back default
@@ -198,6 +198,26 @@ func genC18(g *Gen) error {
 		return err
 	}
 	g.P("def fp_samplerAggregate : String := %s", leanStr(fp))
+	// the record-boundary machinery OGRec.lean abstracts (fingerprints: a change asks for a re-validation)
+	for _, f := range [][3]string{
+		{en + "prom_range_vector_cursor.go", "RangeVectorCursor.peekSamples", "peekSamples"},
+		{en + "prom_range_vector_cursor.go", "RangeVectorCursor.inNextWindow", "inNextWindow"},
+		{en + "prom_instant_vector_cursor.go", "isSameWindow", "isSameWindow"},
+		{en + "prom_instant_vector_cursor.go", "IsSameStep", "isSameStep"},
+		{en + "prom_function_reducers.go", "floatIncAggReducer.Aggregate", "incAggAggregate"},
+		{en + "prom_function_reducers.go", "floatSliceReducer.Aggregate", "sliceAggregate"},
+		{en + "prom_function_reducers.go", "floatRateReducer.Aggregate", "rateAggregate"},
+		{en + "prom_function_reducers.go", "floatIncAggReducer.doFirstWindow", "incAggDoFirstWindow"},
+		{en + "prom_function_reducers.go", "floatIncAggReducer.populateByPrevious", "incAggPopulateByPrevious"},
+		{en + "prom_function_reducers.go", "floatIncAggReducer.populateByLast", "incAggPopulateByLast"},
+		{tp + "transpiler.go", "Transpiler.rewriteMinMaxTime", "rewriteMinMaxTime"},
+	} {
+		h, err := g.Fingerprint(f[0], f[1])
+		if err != nil {
+			return err
+		}
+		g.P("def fp_%s : String := %s", f[2], leanStr(h))
+	}
 	g.Footer()
 	return nil
 }
